@@ -6,8 +6,8 @@ CLAIMED = {
  "C01": ("CP1 CP3 CP6 CP9 CP10 CP12 TK2; supporting HS2 HS3 HS5 HS6 HS7 HS8 HE1 GL1-GL4", "edge-dominance + exhaustive CFG path search + backward slicing over go/ssa (run loop cache events)",
          "structural necessary conditions on every path of the run loop: skip only under digest equality with the loaded cache entry of the same task; no path from a successful run leaves a stale digest on disk; every declared file input reaches the hasher (and every string dependency of the syntax tree reaches one of the two input fields); the old digest is never re-instated after a success; the cache persists exactly its own map; glob expansion precedes the loop; (supporting, shared with C04/C05/C18) the digest covers every listed file's whole content and path, a hashing error stops the run, glob expansion records every non-hidden match under the spokfile directory",
          "not covered: change-sensitivity of the digest (C04), correctness of glob expansion (C05), races between hashing and running. Trusted: go/ssa + VTA of x/tools v0.29.0, encoding/json and os.WriteFile contracts, the effect-based recognition of the cache API"),
- "C02": ("CP2 CP3L CP5 CP11 AB1 AB2; supporting HS1 HS2 HS5 HS7 HS8 GL3 TK5", "control-dependence + backward slice non-interference analysis and must-pass-through path search over go/ssa",
-         "no decision of one loop iteration (run, skip, record, persist) reads loop-carried state of other tasks; every successful run is recorded and persisted on all paths; an empty input list can never be skipped; the project root is absolute and derives from the discovered spokfile; (supporting, shared with C04/C05) the digest is independent of arrival order and of anything but path and content, the expansion root/pattern are the same on every run, a string is a glob exactly when it contains '*'",
+ "C02": ("CP2 CP3L CP5 CP11 CP13 TK6 AB1 AB2; supporting HS1 HS2 HS5 HS7 HS8 GL3 TK5", "control-dependence + backward slice non-interference analysis and must-pass-through path search over go/ssa",
+         "no decision of one loop iteration (run, skip, record, persist) reads loop-carried state of other tasks; every successful run is recorded and persisted on all paths; an empty input list can never be skipped; a recorded digest is only forgotten for a task whose commands are then run (or it is written back); a task's file inputs are its declared dependencies and are written nowhere but in task.New; the project root is absolute and derives from the discovered spokfile; (supporting, shared with C04/C05) the digest is independent of arrival order and of anything but path and content, the expansion root/pattern are the same on every run, a string is a glob exactly when it contains '*'",
          "not covered: that equal inputs give equal digests (C04) and the value-level outcome of the comparison. Same trusted base as C01"),
  "C03": ("GR1-GR8 ST7 TK1", "call-graph cycle / work-list detection, argument slicing, edge-dominance and per-iteration path enumeration over go/ssa",
          "dependency discovery has feedback (recursion or work list); AddEdge goes dependency -> dependent; every use of the Sort result is dominated by len(order)==graph.Order() with an erroring mismatch; undefined and duplicate names end in errors; every identifier dependency of the syntax tree reaches Task.TaskDependencies unconditionally; the whole request list is handed to one Run call; the run loop visits the unmodified order (no re-ordering through any alias) front to back with exactly one run/skip event and one result per iteration",
@@ -18,13 +18,19 @@ CLAIMED = {
  "C05": ("GL1-GL4 TK2 TK5 AB2; supporting HS7", "edge-dominance and path enumeration in the GlobWalk callback + interprocedural slicing of fsys/pattern/keys over go/ssa",
          "the GlobWalk callback never returns SkipDir/SkipAll; exactly one append per non-hidden nil return; walked FS is os.DirFS(SpokFile.Dir), pattern unchanged, Globs keyed by the expanded pattern; nothing but loop/err/already-expanded(miss, non-empty hit) guards the expansion",
          "not covered: the doublestar matcher, the exact hidden-name predicate, symlinks"),
- "C08": ("PR1-PR5 LX1 LX2 FM6; supporting TL3 TL4", "typed-syntax-tree object identity checks + lexer state-function graph reachability + loop progress path search",
-         "every ERROR arm reports the tested token's own Value; every illegalToken quotes the line of the token it cites; the scan ends only via an ERROR token or emit(EOF); a task body cannot reach EOF without RBRACE or error; every parser token loop advances and leaves on ERROR; no line scanner with an unconsulted Err() in lexer/parser/ast. Decides these clauses only, not totality/no-panic over all byte strings",
+ "C06": ("KW1 PS1 PS2 TL1 TL2 PR4 FM6 FM3 FM5 TK4", "lexer state-graph hand-over guards (edge dominance) + origin tracing of token text into node text over go/ssa",
+         "the structural clauses of parse fidelity only: the task keyword is recognised as a whole word (names that start with it stay names); a string literal's text is its token's text minus the quotes and Literal() returns the field; a token's text is the input between the cursor cells; lexer and parser work on the file as read; one tree node per statement, no parsed comment dropped, one command per command token",
+         "not covered (value-level, declined): equality of the parse result with the written structure for every layout - the lexer's cursor arithmetic under whitespace, CRLF (commands keep a trailing \\r on CRLF input today), trailing commas, one-line bodies, non-ASCII letters; that each element lands in the right list"),
+ "C07": ("KW1 WR1 FM1 FM7 FX2 PS1 PS2 FM6 ST9", "field-completeness and full-range loop analysis of every node printer + edge dominance in the lexer state graph + effect/provenance analysis of the --fmt write over go/ssa",
+         "the structural necessary conditions of the format round trip only: the keyword is a whole word; every printer of a compound node writes every field and, for every list field, every element on every way round a front-to-back loop (no filter, no re-ordering); no top-level node prints as nothing and Tree.Write prints each node once in order; nothing outside parser/ast overwrites the tree between Parse and String; --fmt writes exactly Tree.String() of the parse result and only after parsing and loading succeeded; string text is token text minus quotes; no spokfile text is used as a format string",
+         "not covered (value-level, declined): that the printed text re-lexes to an equal tree for every input (quotes inside strings, trailing blanks of commands, CRLF); equality of the re-parsed tree"),
+ "C08": ("PR1-PR6 LX1 LX2 FM6; supporting TL3 TL4", "typed-syntax-tree object identity checks + lexer state-function graph reachability + loop progress path search",
+         "every ERROR arm reports the tested token's own Value; every illegalToken quotes the line of the token it cites; the scan ends only via an ERROR token or emit(EOF); a task body cannot reach EOF without RBRACE or error; every parser token loop advances and leaves on ERROR; no line scanner with an unconsulted Err() in lexer/parser/ast; no loop over a map in those packages is left from inside its body or sends from it (results do not depend on map iteration order). Decides these clauses only, not totality/no-panic over all byte strings",
          "not covered: absence of panics and cursor arithmetic over all inputs (declined, value-level); line numbers within range"),
- "C09": ("SH1 SH2 RT1-RT5 GR6 CP8; supporting CP1 CP10 HS6", "error-flow discipline check (non-nil edge must end in non-nil error returns) along the whole call chain + loop/guard shape analysis over go/ssa",
-         "the interpreter runs with errexit and its exit status reaches Result.Status or the returned error; Ok() methods are Status==0 / conjunctions; every caller of SpokFile.Run examines every result unconditionally and fails on the first not-Ok; errors propagate on every call edge to Runner.Run; main reports on real stderr and exits non-zero; digests recorded only under Ok(); (supporting, shared with C01) a skip requires digest equality and the old digest is only re-instated after a failure",
+ "C09": ("SH1 SH2 SH3 RT1-RT5 GR6 CP8; supporting CP1 CP10 HS6", "error-flow discipline check (non-nil edge must end in non-nil error returns) along the whole call chain + loop/guard shape analysis over go/ssa",
+         "the interpreter runs with errexit and its exit status reaches Result.Status or the returned error; no exec handler of the module answers a command with a nil error of its own; Ok() methods are Status==0 / conjunctions; every caller of SpokFile.Run examines every result unconditionally and fails on the first not-Ok; errors propagate on every call edge to Runner.Run; main reports on real stderr and exits non-zero; digests recorded only under Ok(); (supporting, shared with C01) a skip requires digest equality and the old digest is only re-instated after a failure",
          "not covered: exit-status computation inside mvdan.cc/sh; flag validation inside the CLI library"),
- "C10": ("CP4 CP7 CP8 CP12; supporting HS6", "ordering (must-precede) analysis on the intra-iteration CFG + error-edge discipline check over go/ssa",
+ "C10": ("CP4 CP7 CP8 CP12; supporting HS6 CP1", "ordering (must-precede) analysis on the intra-iteration CFG + error-edge discipline check over go/ssa",
          "crash points are covered by ordering constraints that hold on every CFG path: the recorded digest is invalidated and persisted before the commands start, a new digest is recorded only under Ok() of those commands, and a cache file that cannot be read/decoded always ends in an error",
          "not covered: atomicity of os.WriteFile beyond 'a torn JSON document does not decode' (encoding/json contract), kill during first-time cache.Init"),
  "C12": ("CL1-CL4 CL6 CL7 TK3 GL2; supporting GL1 GL3 TK5 AB2 FD4", "effect inventory with interprocedural entry conditions (greatest fixpoint) + provenance slicing of every removal argument + containment-guard search over go/ssa",
@@ -42,8 +48,8 @@ CLAIMED = {
  "C16": ("TL1-TL4 LX1 LX3 PR4", "shape analysis of the single emission site and of every store into the lexer's cursor fields (origin tracing, necessary-guard dominance, state-graph exits) over go/ssa",
          "the structural clauses only: emit sends Token{Value: input[start:pos], Pos: start, Line: startLine} and then moves start/startLine to pos/line on every path; start only ever jumps to pos and startLine to line, together; the line counter moves by one and upward only under the necessary guard 'the decoded rune is a newline'; the scan position moves only by a decoded rune's width, a fixed spelling's length or a constant; the lexer scans the caller's string unchanged; a scan ends only through an ERROR token or directly after emit(EOF); emit(EOF) has the necessary guard pos >= len(input)",
          "not covered (run-time arithmetic, declined): that only whitespace lies between tokens, the value of pos/line after next/backup/absorb sequences for all inputs, CRLF and multi-byte runes, finiteness of the stream"),
- "C17": ("FD1 FD3 FD4 FD5 FD6 AB2", "loop exit-test classification by backward slicing (directory-dependent, content-independent, dominates the back edge) over go/ssa",
-         "the upward walk has a content-independent exit test on every iteration and one that fires at the root; no negative answer from inside the entries loop; the hit is guarded by Name()==NAME and !IsDir() of the same entry; the stop comparison is on the listed directory after its entries were read; the CLI passes cwd/home",
+ "C17": ("FD1 FD3 FD4 FD5 FD6 FD7 AB2", "loop exit-test classification by backward slicing (directory-dependent, content-independent, dominates the back edge) over go/ssa",
+         "the upward walk has a content-independent exit test on every iteration and one that fires at the root; no negative answer from inside the entries loop; the hit is guarded by Name()==NAME and !IsDir() of the same entry; the stop comparison is on the listed directory after its entries were read; the walk starts in, and compares with, canonically spelled (filepath.Abs/Clean) directories; the CLI passes cwd/home",
          "not covered: symlinks, permission errors other than being reported; filepath.Dir fixed point at the root is a library fact"),
  "C18": ("CC1-CC10 HE1; supporting HS3", "concurrency-shape analysis: channel/WaitGroup alias propagation, nil-dereference-after-error check, send-on-all-paths search, close/Wait ordering, drain-loop exits, shared-memory ownership, interval bound",
          "shape conditions that are sufficient (argument in the evidence) for crash-, deadlock-, leak- and race-freedom of the producer/jobs/workers/results/collector topology under every schedule; any other topology makes the check undecided; every caller of Hash stops on its error",
@@ -57,9 +63,7 @@ CLAIMED = {
 }
 
 NA_FINAL = {
- "C06": "parse fidelity is an equality between a generated structure and the parser's output over all layouts; it is decided by the lexer's run-time cursor arithmetic, no clause is visible in the shape of the code (DESIGN.md section 6)",
- "C07": "format-then-parse equivalence is a round-trip equality over all inputs; the only structural clauses are pinned by existing ast tests and say nothing about re-lexing (DESIGN.md section 6)",
- "C11": "idempotence is an equality of two run-time strings; no structural necessary condition beyond the printer being a pure function (DESIGN.md section 6)",
+ "C11": "idempotence is an equality of two run-time strings (format(format(x)) == format(x)); the structural facts behind it - the printer is a function of the tree, every node is printed - are what C07's WR1/FM1 already decide, and every change written against C11 by an independent sub-agent broke it through the value of a string (a blank trimmed once per pass, a list printed in the single form from a de-duplicated count, a line ending doubled); claiming it on those rules would show green on a tree the property author names as violating it (DESIGN.md section 6)",
 }
 
 def main():
@@ -96,7 +100,7 @@ def main():
         "engines": [{"name": "spokcheck", "path": "/verif/checker", "serves_properties": [c["property_id"] for c in checks],
                      "kind_free_text": "custom static analyses (edge dominance, control dependence, light path-sensitive CFG path search, backward slicing, effect/entry-condition analysis) on go/packages + go/ssa + VTA call graph of golang.org/x/tools v0.29.0, run on a canonical form of the module (static helper calls, called closures and deferred calls inlined; freed cells promoted to registers)"}],
         "checks": checks,
-        "notes": "Family: static analysis. Every check re-loads and type-checks /repo's working tree on each run; exit 0 = all obligations discharged, exit 1 + VIOLATION line = an obligation violated at a named construct, exit 2 = the checker cannot decide (anchor lost / undecided). Known findings: /verif/known_findings.json (12 fixed, none open). The thorough tier adds GOOS linux/darwin/windows and a self-test of the checker against /verif/seeded (must be reported) and /verif/neutral (must stay silent) on scratch copies.",
+        "notes": "Family: static analysis. Every check re-loads and type-checks /repo's working tree on each run; exit 0 = all obligations discharged, exit 1 + VIOLATION line = an obligation violated at a named construct, exit 2 = the checker cannot decide (anchor lost / undecided). Known findings: /verif/known_findings.json (14 fixed, none open). The thorough tier adds GOOS linux/darwin/windows and a self-test of the checker against /verif/seeded (must be reported) and /verif/neutral (must stay silent) on scratch copies.",
         "not_applicable": na,
     }
     json.dump(man, open("/verif/MANIFEST.json", "w"), indent=1)
